@@ -18,6 +18,7 @@
 #include <fcntl.h>
 #include <stdarg.h>
 #include <stdio.h>
+#include <stdio_ext.h>
 #include <stdlib.h>
 #include <string.h>
 #include <sys/stat.h>
@@ -145,13 +146,11 @@ int fflush(FILE *f)
 	if (f && f != stdout && f != stderr && armed) {
 		char b[512], x[32];
 		const char *p = fdpath(fileno(f), b, sizeof b);
-		long pos = ftell(f);
-		struct stat st;
-		st.st_size = -1;
-		fstat(fileno(f), &st);
 		/* "w" = buffered bytes are about to reach the file; "n" = nothing buffered */
-		snprintf(x, sizeof x, "%s", (pos > st.st_size) ? "w" : "n");
-		if (gate("fflush", p, x)) { errno = ENOSPC; return EOF; }
+		snprintf(x, sizeof x, "%s", (__fpending(f) > 0) ? "w" : "n");
+		/* a failed flush loses the data for good (disk full): what is buffered is discarded, so that the flush
+		 * inside a later fclose() cannot quietly succeed */
+		if (gate("fflush", p, x)) { __fpurge(f); errno = ENOSPC; return EOF; }
 	}
 	return r(f);
 }
